@@ -191,12 +191,38 @@ class Leg(object):
             return Failure("JSON round trip changed the attributes: %r -> %r -> %r" % (want, text, got), sig={"kind": "json"})
         if not isinstance(b, Attributes):
             return Failure("_unjsonify(isattributes=True) returned %r" % type(b), sig={"kind": "json"})
+        # decoding the same text again gives the stored content, whatever was done to an earlier decoding
+        for k in list(b.keys()):
+            b[k].append("edited in place")
+        b["new key"] = ["x"]
+        c = helpers._unjsonify(text, isattributes=True)
+        if [(k, list(v)) for k, v in c.items()] != want:
+            return Failure("decoding the same JSON text again gives %r after an earlier result was edited in place; stored %r"
+                           % ([(k, list(v)) for k, v in c.items()], want), sig={"kind": "json-shared"})
+        # the stored text does not depend on the always_return_list view
+        from gffutils import constants
+
+        constants.always_return_list = False
+        try:
+            text_off = helpers._jsonify(a)
+            d_off = helpers._unjsonify(text, isattributes=True)
+        finally:
+            constants.always_return_list = True
+        if text_off != text or [(k, list(v)) for k, v in d_off.items()] != want:
+            return Failure("JSON form depends on always_return_list: %r vs %r" % (text_off, text), sig={"kind": "json-view"})
         if case["db"]:
             f = Feature(seqid="c", source="s", featuretype="gene", start=1, end=2, attributes=a, id="row")
             db = gffutils.create_db([f], ":memory:", id_spec=lambda x: "row")
             back = [(k, list(v)) for k, v in db["row"].attributes.items()]
             if back != want:
                 return Failure("attributes read back from a database %r, written %r" % (back, want), sig={"kind": "json-db"})
+            got1 = db["row"]
+            for k in list(got1.attributes.keys()):
+                got1.attributes[k].append("edited in place")
+            back2 = [(k, list(v)) for k, v in db["row"].attributes.items()]
+            if back2 != want:
+                return Failure("a second look-up returns %r after the first result was edited in place; stored %r" % (back2, want),
+                               sig={"kind": "json-shared"})
         return None
 
     # -- 4. merge_attributes
